@@ -384,3 +384,53 @@ def s_all_obs(I, obs, body):
 
 
 SPEC_NS["all_obs"] = s_all_obs
+
+
+# ------------------------------------------------------------------------------------------------
+# the adapter layer seen from the value objects: assign() as a deterministic function of its arguments
+
+def _N():
+    return z3.DeclareSort("Node")
+
+
+def _chg_list_sort():
+    from .types import parse_ty
+
+    return sort_of(parse_ty("List[Chg]"))
+
+
+def assign_result_fn():
+    return z3.Function("assign_result", _V(), _N(), _V(), _V())
+
+
+def assign_trace_fn():
+    return z3.Function("assign_trace", _V(), _N(), _V(), _chg_list_sort())
+
+
+def s_assign_result(I, old, node, new):
+    return SV(assign_result_fn()(val_term(I, old), node.t, val_term(I, new)), Abs("Val"))
+
+
+def s_assign_trace(I, old, node, new):
+    from .types import parse_ty
+
+    return unpack(I.ctx, assign_trace_fn()(val_term(I, old), node.t, val_term(I, new)), parse_ty("List[Chg]"))
+
+
+def abstract_assign(I, args, kwargs, node):
+    """`adapter.assign(old, node, new)` as seen by EqValue: a generator whose yielded changes and return value
+    are deterministic functions of (old, node, new) -- the adapters themselves are verified separately (Layer C)."""
+    from .types import Obj as _Obj
+
+    old, nd, new = args[-3], args[-2], args[-1]
+    return _Obj("generator", {"trace": s_assign_trace(I, old, nd, new), "value": s_assign_result(I, old, nd, new)})
+
+
+SPEC_NS.update({"assign_result": s_assign_result, "assign_trace": s_assign_trace})
+
+
+def s_is_container(I, v):
+    return SV(z3.Function("is_container", _V(), z3.BoolSort())(val_term(I, v)), BOOL)
+
+
+SPEC_NS["is_container"] = s_is_container
